@@ -591,7 +591,7 @@ def run_shard(spec, ctx):
             col.case(key=hash64(json.dumps(data, sort_keys=True)), nontrivial=odd and confined, labels=labels,
                      sample=(lambda: _summary(data, res)) if seen[0] > 25 and seen[0] % 7 == 0 else None)
 
-        run_given(case_params(), body, ctx, ctx.pick(320, 12000))
+        run_given(case_params(), body, ctx, ctx.pick(320, 70000))
     finally:
         shutil.rmtree(tmp, ignore_errors=True)
 
